@@ -37,10 +37,23 @@ THEOREMS = [NS + n for n in [
     "copy_delta_empty",
     "delta_empty_imp_equal_partial",
     "delta_empty_imp_equal_counterexample",
+    "delta_empty_imp_equal",
+    "delta_empty_imp_equal_argkey_counterexample",
+    "equal_imp_delta_empty_partial",
+    "equal_imp_delta_empty_counterexample",
+    "lcs_is_common_subseq",
+    "lcs_maximal",
+    "move_iff_not_in_lcs",
     "diffTrees_source_partition",
     "diffTrees_target_partition",
     "diffTrees_matching_injective",
     "generated_constants_ok",
+    "diff_leaves_inputs_untouched",
+    "diff_copies_when_shared",
+    "only_source_copied_witness",
+    "stale_hash_witness",
+    "generated_wrapper_policy_ok",
+    "generated_compares_ignored_leaves",
 ]]
 
 
@@ -114,6 +127,57 @@ def translate(chk: Check) -> str:
     if cmp_idents is None:
         problems.append("Keep-vs-Update test of _generate_edit_script not recognised")
         cmp_idents = False
+    count_pre = None
+    for cls in [n for n in tree.body if isinstance(n, ast.ClassDef) and n.name == "ChangeDistiller"]:
+        for fn in [n for n in cls.body if isinstance(n, ast.FunctionDef) and n.name == "_compute_matching_set"]:
+            assigns = [ast.unparse(n) for n in ast.walk(fn) if isinstance(n, ast.Assign)
+                       and any(isinstance(t, ast.Name) and t.id == "leaves_matching_set" for t in n.targets)]
+            if assigns == ["leaves_matching_set = self._compute_leaf_matching_set()"]:
+                count_pre = False
+            elif assigns == ["leaves_matching_set = self._compute_leaf_matching_set()",
+                             "leaves_matching_set = leaves_matching_set | self._pre_matched_pairs"] \
+                    and "self._pre_matched_pairs = set(pre_matched_nodes.items())" in src:
+                count_pre = True
+    if count_pre is None:
+        problems.append("leaves_matching_set of _compute_matching_set not recognised")
+        count_pre = False
+    # ---- the wrapper diff(): copy condition, which trees are copied, which nodes are hashed, the finally guard
+    wp = {"src": None, "tgt": None, "evict": None}
+    for fn in [n for n in tree.body if isinstance(n, ast.FunctionDef) and n.name == "diff"]:
+        cond_ok = hash_ok = False
+        for st in ast.walk(fn):
+            if isinstance(st, ast.Assign) and len(st.targets) == 1 and isinstance(st.targets[0], ast.Name):
+                nm, val = st.targets[0].id, ast.unparse(st.value)
+                if nm == "copy":
+                    cond_ok = val == ("len(source_nodes) != len(source_ids) or len(target_nodes) != len(target_ids) "
+                                      "or source_ids & target_ids")
+                for side, key in (("source", "src"), ("target", "tgt")):
+                    if nm == side + "_copy":
+                        wp[key] = {f"{side}.copy() if copy else {side}": "whenShared",
+                                   f"{side}.copy() if len({side}_nodes) != len({side}_ids) else {side}": "whenSelfDup",
+                                   side: "never"}.get(val)
+            if isinstance(st, ast.Try):
+                first = st.body[0] if st.body else None
+                hash_ok = isinstance(first, ast.If) and ast.unparse(first.test) == "copy and matchings"
+                fb = st.finalbody
+                clears = lambda body: any(isinstance(x, ast.Assign) and ast.unparse(x) == "node._hash = None"
+                                          for b in body for x in ast.walk(b)) and "chain(source_nodes, target_nodes)" in ast.unparse(ast.Module(body=body, type_ignores=[]))
+                if len(fb) == 1 and isinstance(fb[0], ast.If) and not fb[0].orelse and clears(fb[0].body):
+                    wp["evict"] = {"not (copy and matchings)": "unlessCopiesHashed", "not copy": "whenNotCopied",
+                                   "True": "always"}.get(ast.unparse(fb[0].test))
+                elif len(fb) == 1 and isinstance(fb[0], ast.For) and clears(fb):
+                    wp["evict"] = "always"
+                elif not fb or not clears(fb):
+                    wp["evict"] = "never"
+        if not cond_ok:
+            problems.append("diff(): shared-node condition `copy = ...` not recognised")
+        if not hash_ok:
+            problems.append("diff(): `if copy and matchings:` hashing branch not recognised")
+    for k, dflt in (("src", "whenShared"), ("tgt", "whenShared"), ("evict", "unlessCopiesHashed")):
+        if wp[k] is None:
+            problems.append(f"diff(): wrapper shape '{k}' not recognised")
+            wp[k] = dflt
+    chk.cov["wrapper_policy"] = dict(wp)
     if def_f is None or def_t is None:
         problems.append("ChangeDistiller.__init__ defaults f/t not recognised")
         def_f, def_t = def_f or Fraction(3, 5), def_t or Fraction(3, 5)
@@ -125,6 +189,7 @@ def translate(chk: Check) -> str:
     ls = lambda xs: "[" + ", ".join(lean_str(x) for x in xs) + "]"
     return (
         "-- GENERATED by vf/props/c20.py from sqlglot/diff.py (ChangeDistiller constants and type tables). Do not edit.\n"
+        "import SqlglotModel.Model.Diff\n"
         "namespace SqlglotModel.Generated.C20\n"
         f"def thrHi : Nat × Nat := ({hi.numerator}, {hi.denominator})\n"
         f"def thrLo : Nat × Nat := ({lo.numerator}, {lo.denominator})\n"
@@ -134,6 +199,8 @@ def translate(chk: Check) -> str:
         f"def updatableTypes : List String := {ls(tables['UPDATABLE_EXPRESSION_TYPES'])}\n"
         f"def ignoredLeafTypes : List String := {ls(tables['IGNORED_LEAF_EXPRESSION_TYPES'])}\n"
         f"def comparesIgnoredLeaves : Bool := {'true' if cmp_idents else 'false'}\n"
+        f"def countsPrematchedLeaves : Bool := {'true' if count_pre else 'false'}\n"
+        f"def wrapperPolicy : SqlglotModel.Diff.Wrapper.Policy := ⟨.{wp['src']}, .{wp['tgt']}, .{wp['evict']}⟩\n"
         "end SqlglotModel.Generated.C20\n"
     )
 
@@ -220,7 +287,7 @@ def encode_pair(src, tgt):
     """-> (src_json, tgt_json, ids: id(node)->int, nodes: int->node). Node ids: source 0.., target n.."""
     _, exp, D = sg()
     ids, nodes = {}, {}
-    cls_i, ty_i, nel_i, eq_i, idk_i = {}, Interner(), Interner(), {}, Interner()
+    cls_i, ty_i, nel_i, eq_i, idk_i, lay_i = {}, Interner(), Interner(), {}, Interner(), Interner()
     out = []
     for root in (src, tgt):
         for n in root.walk():
@@ -250,6 +317,8 @@ def encode_pair(src, tgt):
                 nel_i.get(dict(D._get_non_expression_leaves(n))),
                 eq,
                 idk_i.get([(k.arg_key, k) for k in n.iter_expressions() if isinstance(k, D.IGNORED_LEAF_EXPRESSION_TYPES)]),
+                0,  # txt: filled in by real_case with the text the distiller's generator renders
+                lay_i.get([(k.arg_key, isinstance(k, D.IGNORED_LEAF_EXPRESSION_TYPES)) for k in n.iter_expressions()]),
             ])
         out.append({"root": ids[id(root)], "nodes": rows})
     clear_hashes(src, tgt)
@@ -291,6 +360,17 @@ def real_case(src, tgt, pre_idx, delta_only, f, t_frac):
                             dice[(id(a), id(b))] = tap._orig[0](tap.cd, a, b)
                         except Exception:  # noqa
                             pass
+    axiom_failures = []
+    txt_i = {}
+    if tap.cd is not None:
+        for tj_ in (sj, tj):
+            for row in tj_["nodes"]:
+                try:
+                    text = tap.cd._sql_generator.generate(nodes[row[0]])
+                except Exception as e:  # noqa
+                    text = ("unrenderable", row[0])
+                row[10] = txt_i.setdefault(text, len(txt_i) + 1)
+        axiom_failures = validate_axioms(tap, sj, tj, ids, nodes, dice)
     clear_hashes(src, tgt)
     # diff.py only compares dice values (heap order, >= f): ship order-preserving ranks instead of floats
     values = sorted(set([float(f)] + [float(v) for v in dice.values()]))
@@ -302,10 +382,49 @@ def real_case(src, tgt, pre_idx, delta_only, f, t_frac):
         "dice": [[ids[a], ids[b], rank[float(v)]] for (a, b), v in dice.items() if a in ids and b in ids],
     })
     if err is not None:
-        return line, f"exception {type(err).__name__}", len(tap.dice)
+        return line, f"exception {type(err).__name__}", axiom_failures
     m = sorted(f"{ids[a]}-{ids[b]}" for a, b in (tap.matchings or {}).items())
     es = sorted(show_edit(e, ids) for e in edits)
-    return line, "M " + " ".join(m) + " | E " + " ".join(es), len(tap.dice)
+    return line, "M " + " ".join(m) + " | E " + " ".join(es), axiom_failures
+
+
+def validate_axioms(tap, sj, tj, ids, nodes, dice):
+    """The oracle axiomatisations the Lean theorems assume, checked on everything shipped in this case:
+    DiceOk  : 0 <= dice <= 1; equal rendered text => dice = 1; dice(a, a) = 1; dice symmetric (sampled)
+    EqcCongr: same class, equal non-expression leaves, equal identifier children, equal child layout and pairwise ==
+              expression children  =>  the two nodes are ==  (structural congruence of Expr.__eq__)"""
+    bad = []
+    rows = {r[0]: r for t in (sj, tj) for r in t["nodes"]}
+    o_dice = tap._orig[0]
+    for k, ((a, b), v) in enumerate(dice.items()):
+        if a not in ids or b not in ids:
+            continue
+        ra, rb = rows[ids[a]], rows[ids[b]]
+        if not (0.0 <= v <= 1.0):
+            bad.append(f"dice out of range: {v}")
+        if ra[10] == rb[10] and v != 1.0:
+            bad.append(f"equal text but dice={v} for {nodes[ids[a]].sql()!r}")
+        if k % 17 == 0:
+            try:
+                if o_dice(tap.cd, nodes[ids[b]], nodes[ids[a]]) != v:
+                    bad.append("dice not symmetric")
+                if o_dice(tap.cd, nodes[ids[a]], nodes[ids[a]]) != 1.0:
+                    bad.append("dice(a, a) != 1")
+            except Exception:  # noqa
+                pass
+    ign = {r[0] for r in rows.values() if r[5]}
+    def sig(r):
+        return (r[1], r[7], r[9], r[11], tuple(rows[k][8] for k in r[4] if k not in ign))
+    by_sig = {}
+    for r in sj["nodes"]:
+        if not r[5]:
+            by_sig.setdefault(sig(r), set()).add(r[8])
+    for r in tj["nodes"]:
+        if not r[5]:
+            for e in by_sig.get(sig(r), ()):
+                if e != r[8]:
+                    bad.append(f"EqcCongr fails at {type(nodes[r[0]]).__name__}: locally equal nodes with == children are not ==")
+    return bad[:3]
 
 
 # ------------------------------------------------------------------------------------------ generators (structured SQL)
@@ -558,6 +677,7 @@ CORPUS_SQL = [
     ("SELECT SUM(a) OVER (PARTITION BY b ORDER BY c)", "SELECT SUM(a) OVER (PARTITION BY c ORDER BY b)"),
     ("SELECT * FROM (SELECT 1) AS abcdef", "SELECT * FROM (SELECT 1) AS abcdeg"),
     ("SELECT Foo(x)", "SELECT FOO(x)"),
+    ("SELECT x IN (y)", "SELECT x IN y"),
 ]
 
 
@@ -636,7 +756,9 @@ def correspond(chk: Check) -> list:
         if rng.random() < 0.35:
             variants.append(([], True, rng.choice(F_CHOICES), rng.choice(T_CHOICES)))
         for pre_idx, delta_only, f, tf in variants:
-            line, ans, ndice = real_case(src, tgt, pre_idx, delta_only, f, tf)
+            line, ans, axiom_failures = real_case(src, tgt, pre_idx, delta_only, f, tf)
+            for af in axiom_failures:
+                chk.correspondence_broken("oracle axiom (DiceOk / EqcCongr) fails on the real code", {"src": a, "tgt": b, "what": af})
             lines.append(line)
             expect.append(ans)
             meta.append({"src": a, "tgt": b, "pre": pre_idx, "delta_only": delta_only, "f": f, "t": [tf.numerator, tf.denominator]})
@@ -659,6 +781,97 @@ def correspond(chk: Check) -> list:
             chk.correspondence_broken("ChangeDistiller matching/edit script", ex)
             bad.append(m)
     return bad
+
+
+def encode_walk(root, oid):
+    """walk() order, each entry [object, walk position of the structural parent, object of the .parent pointer]"""
+    out, queue, i = [], [(root, None)], 0
+    while i < len(queue):
+        node, pp = queue[i]
+        out.append([oid(node), pp, oid(node.parent) if node.parent is not None else None])
+        for k in node.iter_expressions():
+            queue.append((k, i))
+        i += 1
+    return out
+
+
+def tree_consistent(root) -> bool:
+    if root.parent is not None:
+        return False
+    stack = [root]
+    while stack:
+        n = stack.pop()
+        for k in n.iter_expressions():
+            if k.parent is not n:
+                return False
+            stack.append(k)
+    return True
+
+
+def correspond_wrapper(chk: Check) -> None:
+    """diff()'s wrapper vs Wrapper.runDiff: which trees are copied, whether the ChangeDistiller gets parent-consistent
+    trees, how many input nodes keep a cached _hash — on unshared inputs, diff(t, t), and grafts in both directions."""
+    _, _, D = sg()
+    rng = chk.rng
+    pairs = list(SHARE_TEMPLATES) + [("SELECT a FROM t", "SELECT a FROM t"), ("SELECT a, a FROM t", "SELECT b FROM u WHERE a = 1")]
+    for _ in range(chk.pick(10, 120)):
+        _, a, b = gen_pair(rng)
+        pairs.append((a, b if rng.random() < 0.6 else a))
+    lines, expect, meta = [], [], []
+    for a, b in pairs:
+        scenarios = [None, "same"]
+        for _ in range(3):
+            sh, _lvl = pick_share(rng, a, b)
+            if sh:
+                scenarios.append(sh)
+        # a tree that references one of its own objects twice
+        scenarios.append(["selfdup", 1, 2])
+        for share in scenarios:
+            for m in (False, True):
+                try:
+                    src, tgt = parse(a), parse(b)
+                except Exception:  # noqa
+                    continue
+                sw, tw = list(src.walk()), list(tgt.walk())
+                if share == "same":
+                    tgt = src
+                elif share and share[0] == "selfdup":
+                    if len(tw) < 3 or any(True for _ in tw[1].iter_expressions()) is False:
+                        continue
+                    tgt.append("expressions", tw[1])  # same object twice under the target root
+                elif share:
+                    mode, i, j = share
+                    if i >= len(sw) or j >= len(tw) or i == 0 or j == 0:
+                        continue
+                    (tw[j].replace(sw[i]) if mode == "s2t" else sw[i].replace(tw[j]))
+                ids = {}
+                oid = lambda n: ids.setdefault(id(n), len(ids))
+                keep = []  # keep referenced objects alive so ids stay unique
+                line = json.dumps({"op": "wrapper", "sw": encode_walk(src, lambda n: (keep.append(n), oid(n))[1]),
+                                   "tw": encode_walk(tgt, lambda n: (keep.append(n), oid(n))[1]), "matchings": m})
+                inputs = {id(n): n for n in list(src.walk()) + list(tgt.walk())}
+                with Tap() as tap:
+                    try:
+                        D.diff(src, tgt, matchings=[(src, tgt)] if m else None)
+                        cs, ct = tap.cd._source is not src, tap.cd._target is not tgt
+                        ans = "W copyS=%d copyT=%d consS=%d consT=%d stale=%d" % (
+                            cs, ct, tree_consistent(tap.cd._source), tree_consistent(tap.cd._target),
+                            sum(1 for n in inputs.values() if n._hash is not None))
+                    except Exception as e:  # noqa
+                        ans = f"exception {type(e).__name__}"
+                for n in inputs.values():
+                    n._hash = None
+                lines.append(line)
+                expect.append(ans)
+                meta.append({"src": a, "tgt": b, "share": share, "matchings": m})
+                chk.count("wrapper:" + (share if isinstance(share, str) else share[0] if share else "unshared") + ("/m" if m else ""))
+    got = chk.driver("C20", lines)
+    chk.corr_cases += len(lines)
+    for g, e, mt in zip(got, expect, meta):
+        if g != e:
+            ex = dict(mt)
+            ex["model"], ex["impl"] = g, e
+            chk.correspondence_broken("diff() wrapper (copies / parent consistency / hash caches)", ex)
 
 
 # ------------------------------------------------------------------------------------------ search: the property's oracle
@@ -817,7 +1030,10 @@ def oracle(src, tgt, pre_idx=(), share=None, kw=None):
         out.append(("empty-unequal", "delta is empty although source != target: " + local_cause(src, tgt)))
     identity_pre = len(sw) == len(tw) and all(i == j for i, j in pre_idx)
     if equal and delta and (not pre or identity_pre):
-        out.append(("equal-nonempty", f"source == target but delta has {len(delta)} edit(s): " + local_cause(src, tgt)))
+        cause = local_cause(src, tgt)
+        if pre and cause == "none":
+            cause = "identity-pre"  # equal trees, caller matchings pair each node with its own twin
+        out.append(("equal-nonempty", f"source == target but delta has {len(delta)} edit(s): " + cause))
     return out
 
 
@@ -1117,6 +1333,7 @@ def run(chk: Check) -> None:
     hints = []
     try:
         hints = correspond(chk)
+        correspond_wrapper(chk)
     except HarnessError as e:
         if proved:
             raise
